@@ -108,7 +108,7 @@ def _gen_program(st, sw, std, cfg, tag):
 def _damage(st, sw, text, cfg, stats_features):
     r = st("faults")
     data = text.encode("utf-8")
-    classes = sw.sample(["token", "struct", "line", "byte", "trunc"], sw.randrange(1, 4))
+    classes = sw.sample(["token", "struct", "line", "byte", "trunc", "cols"], sw.randrange(1, 4))
     muts = []
     for _ in range(sw.randrange(1, cfg["max_mut"] + 1)):
         cur_text = data.decode("utf-8", "surrogateescape")
